@@ -47,6 +47,13 @@ type c20 struct {
 	world *lnmodel.World
 	sig   string
 	n     int
+	// cached: successful requests of the cached endpoints, replayed once more at the end
+	cached []c20Cached
+}
+
+type c20Cached struct {
+	name, path string
+	body, resp []byte
 }
 
 func (c *c20) do(method, path string, body any) c20Resp {
@@ -678,6 +685,36 @@ func runC20(r *core.Run) {
 				})
 			}
 		}
+		// replays after other requests of the same kind have been answered: what the cache holds for a
+		// request does not change when later requests are served (three further swaps and mints in between)
+		// (every one of the further swaps is itself replayed at the end: 24 responses of one endpoint)
+		for i := 0; i < 24; i++ {
+			in2 := take(2)
+			b2 := swapBody(in2, swapOuts(in2))
+			if rp := c.do("POST", "/v1/swap", b2); rp.status == 200 {
+				c.cached = append(c.cached, c20Cached{"swap", "/v1/swap", b2, append([]byte{}, rp.raw...)})
+			}
+			if i%8 == 0 {
+				if _, _, mb, mr := mintHTTP(1023); mr != nil {
+					c.cached = append(c.cached, c20Cached{"mint", "/v1/mint/bolt11", mb, append([]byte{}, mr...)})
+				}
+			}
+		}
+		for _, e := range c.cached {
+			for i := 0; i < 2; i++ {
+				rp := c.do("POST", e.path, e.body)
+				c.r.Eval(fmt.Sprintf("cache/%s/late-replay-%d", e.name, i), true)
+				c.r.Count("late_replays", 1)
+				if rp.status != 200 || !bytes.Equal(rp.raw, e.resp) {
+					c.r.Violate("cache:"+e.name+":late-replay-differs", fmt.Sprintf("a byte-identical replay of a successful %s, sent after other requests had been served, was answered %d %s", e.name, rp.status, truncStr(string(rp.raw), 200)), c.sig, nil)
+					break
+				}
+				if m := mutating(rp.trace); len(m) > 0 {
+					c.r.Violate("cache:"+e.name+":late-replay-executed", fmt.Sprintf("the late replay of a cached %s made state-changing calls: %v", e.name, m), c.sig, nil)
+					break
+				}
+			}
+		}
 		// a melt is never served from a cache: replay of the paid melt must be executed and refused
 		rb, _ := json.Marshal(map[string]any{"quote": mq2, "inputs": proofsJSON(m2)})
 		rp := c.do("POST", "/v1/melt/bolt11", rb)
@@ -697,6 +734,7 @@ func (c *c20) cache(rng *rand.Rand, name, path string, body, firstResp []byte, o
 	if firstResp == nil {
 		return
 	}
+	c.cached = append(c.cached, c20Cached{name, path, append([]byte{}, body...), append([]byte{}, firstResp...)})
 	rp := c.do("POST", path, body)
 	c.r.Eval("cache/"+name+"/identical-replay", true)
 	if rp.status != 200 || !bytes.Equal(rp.raw, firstResp) {
